@@ -94,6 +94,8 @@ type result struct {
 	CloseCalled  int64       `json:"close_called"` // ns since start
 	CloseReturn  int64       `json:"close_returned"`
 	LastResponse int64       `json:"last_response"` // ns since start of the last successful response
+	ServeReturn  int64       `json:"serve_returned"` // when Daemon.Serve returned (what `relic serve` exits on)
+	LastRecv     int64       `json:"last_recv"`      // when the last response of a request in flight at Close had been read by its client
 	Tokens       []tokReport `json:"tokens"`
 	RateLimit    float64     `json:"ratelimit"`
 	RateBurst    int         `json:"rateburst"`
@@ -343,7 +345,8 @@ func init() {
 			return err
 		}
 		serveDone := make(chan error, 1)
-		go func() { serveDone <- d.Serve() }()
+		var serveRet int64
+		go func() { err := d.Serve(); atomic.StoreInt64(&serveRet, since()); serveDone <- err }()
 		// client
 		clientCert, err := tls.LoadX509KeyPair(keysDir+"/client.pem", keysDir+"/client.pem")
 		if err != nil {
@@ -395,6 +398,14 @@ func init() {
 			return base + "/sign?" + q.Encode()
 		}
 		noteSigned := func(fn, key string) { mu.Lock(); signedNames[fn] = key; res.LastResponse = since(); mu.Unlock() }
+		noteRecv := func() {
+			t := since()
+			mu.Lock()
+			if t > res.LastRecv {
+				res.LastRecv = t
+			}
+			mu.Unlock()
+		}
 
 		// ---------------- phase 0: what each option gets in isolation, then sequence and overlap on the SAME key
 		cl0 := mkClient()
@@ -665,6 +676,7 @@ func init() {
 						}
 						rb, _ := io.ReadAll(resp.Body)
 						resp.Body.Close()
+						noteRecv()
 						if resp.StatusCode != 200 {
 							f.ch <- fmt.Errorf("HTTP %d %.80q", resp.StatusCode, rb)
 							return
@@ -693,6 +705,7 @@ func init() {
 						}
 						rb, _ := io.ReadAll(resp.Body)
 						resp.Body.Close()
+						noteRecv()
 						if resp.StatusCode != 200 {
 							slowCh <- fmt.Errorf("%s: HTTP %d %.80q", fn, resp.StatusCode, rb)
 							return
@@ -818,6 +831,7 @@ func init() {
 		case <-time.After(5 * time.Second):
 			add(&res.FailedInFlight, "Serve did not return after Close")
 		}
+		res.ServeReturn = atomic.LoadInt64(&serveRet)
 		res.TsaHits = int(atomic.LoadInt32(&tsaHits))
 		// token instrumentation
 		instrMu.Lock()
